@@ -9,4 +9,5 @@ def P(name, pkg, run, shards=None, budget=None, overlay=None, gomaxprocs=None):
 
 CHECKS = {
     "C01": {"parts": [P("lookup", "./c01", "^TestC01$")]},
+    "C14": {"parts": [P("instance-ranges", "./c14", "^TestC14Instances$"), P("partition-ranges", "./c14", "^TestC14Partitions$")]},
 }
